@@ -98,6 +98,24 @@ def run_case(case, chooser=None, window=None):
         socks_before = [s.sid for s in nw.world.socks]
         n_frames = {i: len(sc.socks[c].out) for i, c in idx.items()}
         t0 = nw.world.now
+        if extra == "bad_backlog":
+            # in the instant of stop() every ready connection still has a message in its queue that cannot be encoded (an answer
+            # with a text where a number belongs): it is dropped alone, the DPR behind it goes out
+            from diameter.message.commands import AccountingAnswer
+            for i in ready_at_stop:
+                conn = nw.conn_of(sc.socks[idx[i]].fs)
+                if conn is not None:
+                    bad = AccountingAnswer()
+                    bad.header.hop_by_hop_identifier = 0x6600 + i
+                    bad.header.end_to_end_identifier = 0x6700 + i
+                    bad.session_id = "bad;1"
+                    bad.origin_host = b"node.example.org"
+                    bad.origin_realm = b"example.org"
+                    bad.result_code = "2001"
+                    bad.accounting_record_type = 1
+                    bad.accounting_record_number = 1
+                    conn.add_out_msg(bad)
+            nw.world.low_kind = "work_write_queue"      # the writers get the CPU last: the DPR is queued behind the bad message before they look
         if window is not None:
             nw.world.points_on = True
             chooser.window = True
@@ -105,6 +123,8 @@ def run_case(case, chooser=None, window=None):
         if window is not None:
             chooser.window = False
             nw.world.points_on = False
+        if extra == "bad_backlog":
+            nw.world.low_kind = None
         dpa_time = {}
         newcomers = []
         queued = {}
@@ -150,12 +170,12 @@ def run_case(case, chooser=None, window=None):
                 got_dpr = any(f.h.is_request and f.h.code == 282 for f in s.out[n_frames[i]:])
                 if not got_dpr or i in dpa_time or s.fs.closed or s.env_closed:
                     continue
-                if extra == "flood":
+                if extra and extra.startswith("flood"):
                     nw.world.low_kind = "_handle_connections"       # the I/O thread is the last to get the CPU from here on
-                if extra == "flood" and i == ready_at_stop[0] and len(ready_at_stop) > 1:
+                if extra and extra.startswith("flood") and i == ready_at_stop[0] and len(ready_at_stop) > 1:
                     # this peer sends a burst of 200 watchdog requests and then its DPA in one segment; the segment is handled
                     # together with the next peer's DPA, so that peer's wake-up request queues up behind 200 others
-                    data = b"".join(sc.message(s, "dwr") for _ in range(200)) + sc.message(s, "dpa")
+                    data = b"".join(sc.message(s, "dwr") for _ in range(int(extra[5:] or 200))) + sc.message(s, "dpa")
                     nw.deliver(s.fs, data, run=False)
                     dpa_time[i] = nw.world.now
                     continue
@@ -203,7 +223,7 @@ def run_case(case, chooser=None, window=None):
                     vs.append(("shutdown:connection-not-closed-after-its-DPA", f"{desc}: connection {i}"))
                 elif closes[0][0] < dpa_time[i]:
                     vs.append(("shutdown:connection-closed-before-its-DPA-arrived", f"{desc}: connection {i} closed at {closes[0][0] - t0}, DPA at {dpa_time[i] - t0}"))
-                elif closes[0][0] > dpa_time[i] + 2 and (closes[0][0] < t0 + wt or extra in ("flood", "together", "together_iolast")):
+                elif closes[0][0] > dpa_time[i] + 2 and (closes[0][0] < t0 + wt or (extra or "").startswith("flood") or extra in ("together", "together_iolast")):
                     vs.append(("shutdown:connection-not-closed-promptly-after-its-DPA", f"{desc}: connection {i} DPA at {dpa_time[i] - t0}, closed at {closes[0][0] - t0}"))
             if i in ready_at_stop and not force and reaction == "never" and closes and closes[0][0] < t0 + wt:
                 vs.append(("shutdown:connection-closed-before-DPA-or-timeout", f"{desc}: connection {i} closed at {closes[0][0] - t0}, timeout {wt}"))
@@ -293,6 +313,11 @@ def all_cases(tier):
     for ex in ("together", "together_iolast"):
         cases.append((("ready", "ready"), "dpa_now", False, 5, None, False, ex))
         cases.append((("waiting_dwa", "ready"), "dpa_now", False, 5, None, False, ex))
+    for sts in (("ready",), ("ready", "ready"), ("waiting_dwa", "ready")):
+        for reac in ("dpa_now", "never"):
+            cases.append((sts, reac, False, 3, None, False, "bad_backlog"))
+    for nfl in (12, 50, 700):       # bursts of other sizes (a pipe drained in reads of 64 / 256 / 1024 / 4096 bytes loses a request at one of them)
+        cases.append((("ready", "ready"), "dpa_now", False, 5, None, False, f"flood{nfl}"))
     cases.append((("ready", "ready"), "dpa_now", False, 5, None, False, "flood"))
     cases.append((("waiting_dwa", "ready"), "dpa_now", False, 5, None, False, "flood"))
     return cases
